@@ -307,7 +307,6 @@ theorem regridAfter_ok (R : Rel) (a a' : AState) (req inInfo out : Info)
   split at h; · cases h
   split at h; · cases h
   split at h; · cases h
-  split at h; · cases h
   have hog : (pick a.outputGrid req.grid).isSome := by
     rw [pick_isSome]
     cases hx : a.outputGrid.isSome <;> cases hy : req.grid.isSome <;> simp_all
@@ -315,7 +314,7 @@ theorem regridAfter_ok (R : Rel) (a a' : AState) (req inInfo out : Info)
   · -- first call
     rename_i hinit
     cases hc1 : checkAndSetOutMask R
-        { a with inputGrid := pick a.inputGrid inInfo.grid, inputMask := pick a.inputMask inInfo.mask,
+        { a with inputGrid := pick inInfo.grid a.inputGrid, inputMask := pick a.inputMask inInfo.mask,
                  outputGrid := pick a.outputGrid req.grid, downstreamMask := req.mask } with
     | error e => simp [hc1] at h
     | ok a2 =>
